@@ -26,11 +26,37 @@ Inductive case :=
    Every configuration is run several times on fresh copies (Go's map iteration order varies
    between runs); o_t, o_f, o are the observations of the first run and stable tells whether
    all runs produced the same result ("the outcome does not depend on map iteration order") *)
-| CResp (c : cfg) (is_collection : bool) (payload : json) (o_t o_f : obs) (o : option obs) (stable : bool).
+| CResp (c : cfg) (is_collection : bool) (payload : json) (o_t o_f : obs) (o : option obs) (stable : bool)
+(* an endpoint with several backends behind the default factory (parallel merge) and the gin
+   JSON render: per backend its configuration, is_collection, payload and what that backend's
+   own http proxy / formatter was observed to do (as in CResp); client = the decoded JSON body
+   the client received (None: an error status); stable: every run gave the same body *)
+| CE2E (bs : list (cfg * bool * json * obs * obs * option obs)) (client : option obj) (stable : bool).
 
 (* a mapping whose names overlap is outside the quantifier: its outcome depends on the
    order in which Go ranges over the map, so it is not compared with the model *)
 Definition comparable (c : cfg) : bool := names_distinct_b (sanitize (mapping c)).
+
+Definition e2e_item := (cfg * bool * json * obs * obs * option obs)%type.
+Definition e2e_backend (x : e2e_item) : backend :=
+  let '(c, ic, payload, _, _, _) := x in {| b_cfg := c; b_coll := ic; b_payload := payload |}.
+Definition e2e_cfg (x : e2e_item) : cfg := let '(c, _, _, _, _, _) := x in c.
+Definition e2e_backend_corr (x : e2e_item) : bool :=
+  let '(c, ic, payload, _, _, o) := x in
+  match respond c ic payload, o with
+  | None, None => true
+  | Some r, Some oo => negb (comparable c) || obs_eqb r oo
+  | _, _ => false
+  end.
+Definition e2e_backend_prop (x : e2e_item) : bool :=
+  let '(c, ic, payload, o_t, o_f, o) := x in spec_resp_b c ic payload o_t o_f o.
+Definition observed_out (x : e2e_item) : list obj :=
+  let '(_, _, _, _, _, o) := x in match o with Some (OData m) => [m] | _ => [] end.
+(* the model's formatted outputs (the observed one where the mapping is outside the quantifier) *)
+Definition model_out (x : e2e_item) : list obj :=
+  if comparable (e2e_cfg x)
+  then match backend_out (e2e_backend x) with Some m => [m] | None => [] end
+  else observed_out x.
 
 Definition check_case (cs : case) : bool * bool :=
   match cs with
@@ -45,6 +71,26 @@ Definition check_case (cs : case) : bool * bool :=
        | _, _ => false
        end,
        spec_resp_b c ic payload o_t o_f o && (stable || negb (comparable c)))
+  | CE2E bs client stable =>
+      let mo := flat_map model_out bs in
+      let oo := flat_map observed_out bs in
+      let all_comparable := forallb (fun x => comparable (e2e_cfg x)) bs in
+      (forallb e2e_backend_corr bs &&
+       match client with
+       | None => is_nil mo
+       | Some doc =>
+           negb all_comparable ||   (* a run-dependent backend output: the merge is not judged *)
+           (* which backend wins a shared top-level key is left open (arrival order) *)
+           negb (is_nil mo) && noleak_e2e_b mo doc && all_delivered_b mo doc &&
+           (negb all_comparable || negb (disjoint_keys_b mo) ||
+            opt_eqb obj_eqb (client_doc (map e2e_backend bs)) (Some doc))
+       end,
+       forallb e2e_backend_prop bs &&
+       match client with
+       | None => true
+       | Some doc => negb all_comparable || noleak_e2e_b oo doc
+       end &&
+       (stable || negb (disjoint_keys_b oo) || negb all_comparable))
   end.
 
 Fixpoint failing (i : nat) (cs : list case) : list verdict :=
